@@ -362,6 +362,32 @@ func checkWorkerCounts(rep *core.Report, r2, r3 *core.RuleRun, p *pipeline) {
 	if nInc == 0 {
 		r2.Fail(name+":DecodedCount-missing", fn.Pos(), "worker never increments its decoded counter")
 	}
+	// the converse, for decoders with a non-fatal error class (IPFIX, NetFlow v9/v5): a non-fatal error comes back
+	// together with the message holding what did decode, so the only way round the increment (and the publish
+	// behind it) is "message is nil". Skipping on "error is not nil" alone drops datagrams that yielded records.
+	// (sFlow: "decodes successfully" is the code's own conjunction of no error, samples present and encodable,
+	// which sits between the decode and the increment; not judged here.)
+	if df := p.decode.Common().StaticCallee(); nInc > 0 && df != nil && df.Pkg != nil && df.Pkg.Pkg.Scope().Lookup("nonfatalError") != nil {
+		w := core.Walk{
+			Blocked: func(ins ssa.Instruction) bool { return isInc(ins) != 0 },
+			EdgeOK: func(b *ssa.BasicBlock, si int) bool {
+				if !loop.Blocks[b.Succs[si]] {
+					return false
+				}
+				cond, truth, ok := core.IfEdge(b, si)
+				if !ok {
+					return true
+				}
+				if v, eqNil, ok := core.NilCompare(cond); ok && v == msgv && eqNil == truth {
+					return false // no message: nothing to count
+				}
+				return true
+			}}
+		reach := w.ReachInstrs(p.decode)
+		skipped := len(loop.Header.Instrs) > 0 && reach[loop.Header.Instrs[0]]
+		r2.Check(!skipped, name+":DecodedCount-when-message", p.decode.Pos(), "every path from decode to the next datagram that does not pass the increment passes 'message is nil'",
+			"a datagram for which the decoder returned a message (a non-fatal error leaves the records that did decode) can complete the iteration uncounted and unpublished")
+	}
 	// ---- publish ----
 	pub := core.CountQuery{Fn: fn, Start: p.recv, Stop: stop, Event: isPub}.Run()
 	r3.Check(maxAll(pub) <= 1, name+":publish-at-most-once", p.recv.Pos(), "publish "+fmtRange(pub, "latch")+" per iteration", fmt.Sprintf("a datagram can be published %s times", fmtRange(pub, "latch")))
